@@ -115,6 +115,48 @@ theorem replay_call_cash (cfg : Cfg K) (mult : Option K) (rows : List (Int × BR
     (h : execRows cfg mult [] rows w = .ok w') : rootCap w' = rootCap w - costSum cfg mult w rows :=
   (execRows_cash rows hf h).1
 
+/-- **one day of the backtest** (`update; run; update`) of a flat blotter-driven strategy that ends unflagged: the root's cash goes
+    up by the carry its securities parked on the earlier date (0 on a repeated date, and always 0 for plain securities) and down by
+    the cost of every row of that day's window - `quantity × listed price × multiplier + commission`, row by row, whatever the
+    market prices of the date and however many fills of a name the window holds -/
+theorem replay_day_cash (cfg : Cfg K) (p : ProgR K) (d : Nat) (w w' : World K) (hf : Flat w)
+    (h : btDay cfg (progRunR cfg p []) d w = .ok w') (hb : w'.bankrupt = false) :
+    rootCap w' = rootCap w + (if rootNow w ≠ some d then parked w else 0)
+      - costSum cfg p.mult w (select p.timeline d p.rows) :=
+  (btDay_cash p hf h hb).1
+
+/-- **Replay reproduces the cash.**  A complete backtest of a flat blotter-driven strategy whose securities park no carry (plain,
+    fixed-income or hedge securities: `Dry`), over an increasing timeline of `n + 1` stamps, that completes and ends unflagged: the
+    root's cash is the initial cash plus the capital minus the cost of every row stamped in `(tl[0], tl[n]]` - each exactly once,
+    each priced on its own at its listed price (quantity x price x multiplier + the commission at (quantity, price x multiplier)),
+    with the commission function and multipliers of the start. -/
+theorem replay_cash (cfg : Cfg K) (p : ProgR K) (hs : p.timeline.Pairwise (· < ·)) (n : Nat)
+    (hlen : p.timeline.length = n + 1) (a b : Int) (ha : p.timeline[0]? = some a) (hb : p.timeline[n]? = some b)
+    (capital : K) (w r : World K) (hd : Dry w)
+    (h : btRun cfg (progRunR cfg p []) capital (0 :: List.range' 1 n) w = .ok r) (hnb : r.bankrupt = false) :
+    Dry r ∧ rootCap r = rootCap w + capital -
+      gsum (rowCost cfg p.mult w) (p.rows.filter fun x => decide (a < x.1 ∧ x.1 ≤ b)) := by
+  obtain ⟨hdr, hc⟩ := btRun_cash_dry p hd h hnb
+  exact ⟨hdr, by rw [hc, gdaysSum_range p.timeline hs n hlen a b ha hb p.rows]⟩
+
+/-- **Positions AND cash do not depend on the timeline**: the same frame (same rows, same price multiplier) replayed over two
+    increasing timelines with the same first and last stamp, from the same book with the same capital: if both runs complete
+    unflagged they end with the same position in every security and the same cash - hence, marked at the same final prices, the
+    same value.  A replay that nets the fills of a window (the seeded change C18_10) breaks exactly this. -/
+theorem replay_books_timeline_independent (cfg : Cfg K) (p1 p2 : ProgR K) (hrows : p1.rows = p2.rows) (hmult : p1.mult = p2.mult)
+    (hs1 : p1.timeline.Pairwise (· < ·)) (hs2 : p2.timeline.Pairwise (· < ·)) (n1 n2 : Nat)
+    (hlen1 : p1.timeline.length = n1 + 1) (hlen2 : p2.timeline.length = n2 + 1) (a b : Int)
+    (ha1 : p1.timeline[0]? = some a) (hb1 : p1.timeline[n1]? = some b)
+    (ha2 : p2.timeline[0]? = some a) (hb2 : p2.timeline[n2]? = some b)
+    (capital : K) (w r1 r2 : World K) (hd : Dry w)
+    (h1 : btRun cfg (progRunR cfg p1 []) capital (0 :: List.range' 1 n1) w = .ok r1) (hnb1 : r1.bankrupt = false)
+    (h2 : btRun cfg (progRunR cfg p2 []) capital (0 :: List.range' 1 n2) w = .ok r2) (hnb2 : r2.bankrupt = false) :
+    rootCap r1 = rootCap r2 ∧ ∀ j, posAt r1 j = posAt r2 j := by
+  refine ⟨?_, replay_positions_timeline_independent cfg p1 p2 hrows hs1 hs2 n1 n2 hlen1 hlen2 a b ha1 hb1 ha2 hb2
+    capital capital w r1 r2 hd.flat h1 hnb1 h2 hnb2⟩
+  rw [(replay_cash cfg p1 hs1 n1 hlen1 a b ha1 hb1 capital w r1 hd h1 hnb1).2,
+    (replay_cash cfg p2 hs2 n2 hlen2 a b ha2 hb2 capital w r2 hd h2 hnb2).2, hrows, hmult]
+
 theorem costSum_perm (cfg : Cfg K) (mult : Option K) (w : World K) {l1 l2 : List (Int × BRow K)} (hp : l1.Perm l2) :
     costSum cfg mult w l1 = costSum cfg mult w l2 := by
   induction hp with
@@ -243,5 +285,37 @@ example : ((updRoot cfgE 1 wRA).toOption.bind fun w1 =>
       (execRows cfgE none [] [(15, (0, 5, 11)), (16, (0, -5, 12))] w1).toOption.map fun w2 =>
         (rootCap w1 - rootCap w2, posAt w2 0 - posAt w1 0)) = some (-5, 0) := by
   refine ⟨by decide +kernel, by decide +kernel, by decide +kernel⟩
+
+/-- day 1 of the backtest of blotter A on data set A, funded with 1000 and updated on row 0 (window `(0, 10]`: 2 `y` at 20 and
+    1 `y` at 19): the cash goes down by 59, nothing is parked -/
+example : (((opAdjust wRA [] 1000 true true).bind (updRoot cfgE 0)).toOption.bind fun w0 =>
+      (btDay cfgE (progRunR cfgE progRA []) 1 w0).toOption.map fun w' =>
+        (w'.bankrupt, rootCap w0 - rootCap w', costSum cfgE progRA.mult w0 (select progRA.timeline 1 progRA.rows), parked w0)) =
+    some (false, 59, 59, 0) := by decide +kernel
+
+theorem wRA_dry : Dry wRA := ⟨_, _, rfl, by
+  intro k hk
+  simp only [List.mem_cons, List.not_mem_nil, or_false] at hk
+  rcases hk with rfl | rfl
+  · exact ⟨_, rfl, by decide, by decide, by decide⟩
+  · exact ⟨_, rfl, by decide, by decide, by decide⟩⟩
+
+/-- blotter A on data set A over 0 < 10 < 20 < 30 and over the coarse timeline 0 < 30: both complete unflagged, and by the theorem
+    end with the same cash and positions; the cash is 1000 − (5·11 + 2·20 − 1·12 + 1·19) = 898, as `replay_cash` computes from the
+    frame alone -/
+example : ∃ r1 r2, btRun cfgE (progRunR cfgE progRA []) 1000 (0 :: List.range' 1 3) wRA = .ok r1 ∧
+    btRun cfgE (progRunR cfgE { progRA with timeline := [0, 30] } []) 1000 (0 :: List.range' 1 1) wRA = .ok r2 ∧
+    rootCap r1 = rootCap r2 ∧ rootCap r1 = 898 ∧
+    rootCap wRA + 1000 - gsum (rowCost cfgE progRA.mult wRA) (progRA.rows.filter fun x => decide (0 < x.1 ∧ x.1 ≤ 30)) = 898 := by
+  have hA : (btRun cfgE (progRunR cfgE progRA []) 1000 (0 :: List.range' 1 3) wRA).toOption.map
+      (fun r => (r.bankrupt, rootCap r)) = some (false, 898) := by decide +kernel
+  have hB : (btRun cfgE (progRunR cfgE { progRA with timeline := [0, 30] } []) 1000 (0 :: List.range' 1 1) wRA).toOption.map
+      (fun r => r.bankrupt) = some false := by decide +kernel
+  obtain ⟨r1, hr1, ha1⟩ := P16.exists_of_toOption_map hA
+  obtain ⟨r2, hr2, ha2⟩ := P16.exists_of_toOption_map hB
+  simp only [Prod.mk.injEq] at ha1
+  refine ⟨r1, r2, hr1, hr2, ?_, ha1.2, by decide +kernel⟩
+  exact (replay_books_timeline_independent cfgE progRA { progRA with timeline := [0, 30] } rfl rfl tlE_increasing (by decide) 3 1
+    rfl rfl 0 30 rfl rfl rfl rfl 1000 wRA r1 r2 wRA_dry hr1 ha1.1 hr2 ha2).1
 
 end Bt.C18
